@@ -166,7 +166,11 @@ class SymInt(int):
         a, b = self, SymInt.of(other)
         P = a.P or b.P
         if a.P and b.P and a.P != b.P:
-            a, b, P = a.mat(), b.mat(), None
+            # values of two different fields meet as integers: a public one (deg 0) is observed as its integer
+            # representative, a share keeps its own pending modulus (the result re-enters that field)
+            if a.deg == 0 and b.deg > 0: a = a.mat(); P = b.P
+            elif b.deg == 0 and a.deg > 0: b = b.mat(); P = a.P
+            else: a, b, P = a.mat(), b.mat(), None
         deg = max(a.deg, b.deg) if op in '+-' else a.deg + b.deg
         if P is None and (a.D != 1 or b.D != 1):
             raise Concretised('rational without modulus')
